@@ -21,9 +21,20 @@ for sid in sorted(os.listdir(os.path.join(V, "seeded"))):
         rules = sorted({l.split()[1] for l in c.stdout.splitlines() if l.startswith("REFUTED ")})
         out[sid] = {"property": prop, "exit": c.returncode, "result": "caught" if c.returncode == 1 else ("missed" if c.returncode == 0 else "analysis-incomplete"),
                     "rules": rules}
+        if c.returncode != 1:
+            # the changed function may be an anchor of a sibling property (listed by hand in meta.json: "also_check"); say so, do not count it as caught by its own check
+            meta = json.load(open(os.path.join(d, "meta.json")))
+            for q in meta.get("also_check", []):
+                c2 = subprocess.run([os.path.join(V, "check"), q, "--no-write"], capture_output=True, text=True)
+                if c2.returncode == 1:
+                    r2 = sorted({l.split()[1] for l in c2.stdout.splitlines() if l.startswith("REFUTED ")})
+                    out[sid]["result"] += f" by {prop}; reported by the check of {q}"
+                    out[sid]["rules"] = r2
+                    break
     finally:
         subprocess.run(["git", "-C", "/repo", "checkout", "--", "."])
     print(sid, out[sid]["result"], ",".join(out[sid]["rules"]))
 json.dump(out, open(os.path.join(V, "seeded", "CATCH_MATRIX.json"), "w"), indent=1)
 n = sum(1 for v in out.values() if v["result"] == "caught")
-print(f"caught {n} of {len(out)}")
+n2 = sum(1 for v in out.values() if "reported by the check of" in v["result"])
+print(f"caught {n} of {len(out)} by the check of the property they were seeded for, {n2} more by the check of a sibling property")
